@@ -331,6 +331,9 @@ impl ReactCache
         mut commands    : Commands,
         entity_reactors : Query<&EntityReactors>,
     ){
+        // ignore entities that were despawned before the insertion was applied
+        if commands.get_entity(entity).is_none() { return; }
+
         let rtype = EntityReactionType::Insertion(TypeId::of::<C>());
 
         // entity-specific reactors
@@ -366,6 +369,9 @@ impl ReactCache
         mut commands    : Commands,
         entity_reactors : Query<&EntityReactors>,
     ){
+        // ignore entities that were despawned before the mutation was applied
+        if commands.get_entity(entity).is_none() { return; }
+
         let rtype = EntityReactionType::Mutation(TypeId::of::<C>());
 
         // entity-specific reactors
@@ -455,6 +461,9 @@ impl ReactCache
         cache               : Res<ReactCache>,
         entity_reactors     : Query<&EntityReactors>,
     ){
+        // drop events that target despawned entities
+        if commands.get_entity(target).is_none() { return; }
+
         // get reactors
         let entity_reactors = entity_reactors.get(target);
         let handlers = cache.any_entity_event_reactors.get(&TypeId::of::<E>());
